@@ -1092,3 +1092,171 @@ Print Assumptions C07_example_alias.
      (6) the per-question hypotheses (warm_question, alias_path) derived from one decidable
          well-formedness predicate on universes (consistentb + tree shape), instead of being stated
          question by question. *)
+
+(* ====================================================================== *)
+(* ALL FOUR PROTOCOL MODES (lemmas: Resolver/RecursiveModes.v)              *)
+(* ====================================================================== *)
+From RV Require Import Resolver.RecursiveModes.
+
+(* C07_correct_warm / C07_correct_chain for EVERY protocol mode [mode] (only-v4, prefer-v4, prefer-v6,
+   only-v6).  resolve_hostname_to_ip asks for the record types of [rtypes_of_mode mode] in order; the
+   first type for which the fast pass finds an address of the nameserver host -- a root hint or a
+   cached RRset -- wins (C18_hostname_loop_order).  Accordingly:
+
+     hint_okm                     root hints are NS records of the root, A records or AAAA records;
+     mode_usable mode t           t is one of the types of the mode;
+     consistentm u hints mode G   cache_consistent with the closed clause for the mode: every host named
+                                  by a cached NS record has a well-formed name and, for SOME type of the
+                                  mode, a hint or a non-empty cached RRset (here G = nobody: no host is
+                                  excused; for only-v4 this is cache_consistent: C07_consistentm_only_v4);
+     warm_questionm u hints mode false G q zroot [z1..zk] zk
+        warm_question with, for each link z(i-1) > zi:  every nameserver host of the cut has glue OF A
+        FAMILY THE MODE CAN USE (an A or AAAA record of a type of the mode, TTL > 0, in z(i-1)'s glue or
+        data);  [hosts_okm zi]: every host that any NS record of the universe owned by zi's apex names has
+        a well-formed name, owns no CNAME in the universe, and EVERY address record -- A or AAAA, in the
+        universe or in the hints -- for it holds an address of its type that is the address of a server
+        whose closest zone for the question name is zi (whichever family is found first is used);
+        the same for the root zone, whose hint nameservers are nameservers the universe lists for the
+        root and have a hint of a family the mode can use;  the question name is not a nameserver host.
+
+   Then, from any cache consistent for the mode, with fuel >= k + 2, [resolve] returns the
+   authoritative answer and leaves a consistent cache: from the cache (the cached RRset, same data), or
+   over the network: exactly auth_answer, the log one UDP exchange about q per zone of a non-empty
+   suffix [used] of the chain, each with a server (v4 or v6 address: [query_toi]) whose closest zone
+   for the name is that zone; the suffix is the whole chain, or begins at a zone whose NS set was cached. *)
+Theorem C07_correct_modes :
+  forall (sort_names : list dname -> list dname) (port : N) (u : universe) (hints : list rr) (hz : zone)
+         (mode : protocol_mode) (q : question) (zroot : uzone) (rest : list uzone) (zk : uzone) (c : scache) (fuel : nat),
+  (forall l, Permutation (sort_names l) l) ->
+  universe_ns_ok u ->
+  zone_build root_domain None (hint_ops hints) = Ok hz ->
+  warm_questionm u hints mode false (fun _ => False) q zroot rest zk -> plain_question u q ->
+  consistentm u hints mode (fun _ => False) scache sc_get c -> (length rest + 2 <= fuel)%nat ->
+  exists rrs c' ts',
+    resolve scache sc_get sc_insert_all sort_names (ModeRecursive mode) port (zones_insert [] hz)
+            (universe_oracle u []) fuel q (c, tstate_init)
+    = (Ok (NonAuthoritative rrs (aa_soa (auth_answer u q))), (c', ts'))
+    /\ consistentm u hints mode (fun _ => False) scache sc_get c'
+    /\ ((ts_log ts' = [] /\ c' = c /\ rrs = sc_get c (q_name q) (q_type q) /\ rrs <> []
+         /\ same_data rrs (aa_rrs (auth_answer u q)))
+        \/ (rrs = aa_rrs (auth_answer u q) /\ sc_get c (q_name q) (q_type q) = []
+            /\ exists pre used, zroot :: rest = pre ++ used /\ used <> []
+                 /\ (pre = [] \/ exists zi used', used = zi :: used' /\ sc_get c (uz_apex zi) RT_NS <> [])
+                 /\ Forall2 (fun z e => exists a, query_toi port q a e /\ serves_owner u a z q) used (ts_log ts'))).
+Proof.
+  intros sort_names port u hints hz mode q zroot rest zk c fuel Hs Hu Hb Hw Hq Hc Hf.
+  exact (outcomem_strict _ _ _ _ _ _ _ _ _ _ _ _
+           (modes_correct sort_names Hs port u hints hz mode false q zroot rest zk c fuel Hu Hb Hw Hq Hc Hf)).
+Qed.
+Print Assumptions C07_correct_modes.
+
+(* the same for the real cache model (Cache/CacheModel.v under its invariant) at any fixed instant *)
+Theorem C07_correct_modes_real_cache :
+  forall (now : N) (sort_names : list dname -> list dname) (port : N) (u : universe) (hints : list rr) (hz : zone)
+         (mode : protocol_mode) (q : question) (zroot : uzone) (rest : list uzone) (zk : uzone) (c : rcache) (fuel : nat),
+  (forall l, Permutation (sort_names l) l) ->
+  universe_ns_ok u ->
+  zone_build root_domain None (hint_ops hints) = Ok hz ->
+  warm_questionm u hints mode false (fun _ => False) q zroot rest zk -> plain_question u q ->
+  consistentm u hints mode (fun _ => False) rcache (rc_get now) c -> (length rest + 2 <= fuel)%nat ->
+  exists rrs c' ts',
+    resolve rcache (rc_get now) (rc_insert_all now) sort_names (ModeRecursive mode) port (zones_insert [] hz)
+            (universe_oracle u []) fuel q (c, tstate_init)
+    = (Ok (NonAuthoritative rrs (aa_soa (auth_answer u q))), (c', ts'))
+    /\ consistentm u hints mode (fun _ => False) rcache (rc_get now) c'
+    /\ ((ts_log ts' = [] /\ c' = c /\ rrs = rc_get now c (q_name q) (q_type q) /\ rrs <> []
+         /\ same_data rrs (aa_rrs (auth_answer u q)))
+        \/ (rrs = aa_rrs (auth_answer u q) /\ rc_get now c (q_name q) (q_type q) = []
+            /\ exists pre used, zroot :: rest = pre ++ used /\ used <> []
+                 /\ (pre = [] \/ exists zi used', used = zi :: used' /\ rc_get now c (uz_apex zi) RT_NS <> [])
+                 /\ Forall2 (fun z e => exists a, query_toi port q a e /\ serves_owner u a z q) used (ts_log ts'))).
+Proof.
+  intros now sort_names port u hints hz mode q zroot rest zk c fuel Hs Hu Hb Hw Hq Hc Hf.
+  exact (outcomem_strict _ _ _ _ _ _ _ _ _ _ _ _
+           (modes_correct_real_cache now sort_names Hs port u hints hz mode false q zroot rest zk c fuel Hu Hb Hw Hq Hc Hf)).
+Qed.
+Print Assumptions C07_correct_modes_real_cache.
+
+(* C07_correct_chain for every mode: from the EMPTY cache (SimpleCache; Cache::new at any instant) the
+   log is one exchange per zone of the WHOLE chain, root server first *)
+Theorem C07_correct_chain_modes :
+  forall (sort_names : list dname -> list dname) (port : N) (u : universe) (hints : list rr) (hz : zone)
+         (mode : protocol_mode) (q : question) (zroot : uzone) (rest : list uzone) (zk : uzone) (fuel : nat),
+  (forall l, Permutation (sort_names l) l) ->
+  universe_ns_ok u ->
+  zone_build root_domain None (hint_ops hints) = Ok hz ->
+  warm_questionm u hints mode false (fun _ => False) q zroot rest zk -> plain_question u q ->
+  (length rest + 2 <= fuel)%nat ->
+  (exists c' ts',
+     resolve scache sc_get sc_insert_all sort_names (ModeRecursive mode) port (zones_insert [] hz)
+             (universe_oracle u []) fuel q (sc_empty, tstate_init)
+     = (Ok (NonAuthoritative (aa_rrs (auth_answer u q)) (aa_soa (auth_answer u q))), (c', ts'))
+     /\ Forall2 (fun z e => exists a, query_toi port q a e /\ serves_owner u a z q) (zroot :: rest) (ts_log ts')
+     /\ consistentm u hints mode (fun _ => False) scache sc_get c')
+  /\ forall now, exists c' ts',
+     resolve rcache (rc_get now) (rc_insert_all now) sort_names (ModeRecursive mode) port (zones_insert [] hz)
+             (universe_oracle u []) fuel q (rc_new, tstate_init)
+     = (Ok (NonAuthoritative (aa_rrs (auth_answer u q)) (aa_soa (auth_answer u q))), (c', ts'))
+     /\ Forall2 (fun z e => exists a, query_toi port q a e /\ serves_owner u a z q) (zroot :: rest) (ts_log ts')
+     /\ consistentm u hints mode (fun _ => False) rcache (rc_get now) c'.
+Proof.
+  intros sort_names port u hints hz mode q zroot rest zk fuel Hs Hu Hb Hw Hq Hf. split.
+  - exact (modes_chain_abstract scache sc_get sc_insert_all sc_cache_laws sort_names Hs port u Hu hints hz Hb mode q zroot rest zk
+             sc_empty fuel sc_empty_get Hw Hq Hf).
+  - intro now.
+    exact (modes_chain_abstract rcache (rc_get now) (rc_insert_all now) (rc_cache_laws now) sort_names Hs port u Hu hints hz Hb mode
+             q zroot rest zk rc_new fuel (rc_empty_get now) Hw Hq Hf).
+Qed.
+Print Assumptions C07_correct_chain_modes.
+
+(* the consistency notion: the empty caches are consistent for every mode; for only-v4 it is
+   cache_consistent of C07_correct_warm *)
+Theorem C07_consistentm_only_v4 : forall u hints,
+  (forall mode, consistentm u hints mode (fun _ => False) scache sc_get sc_empty
+                /\ forall now, consistentm u hints mode (fun _ => False) rcache (rc_get now) rc_new)
+  /\ (forall (c : scache), consistentm u hints OnlyV4 (fun _ => False) scache sc_get c <-> cache_consistent u hints scache sc_get c)
+  /\ (forall now (c : rcache), consistentm u hints OnlyV4 (fun _ => False) rcache (rc_get now) c
+                               <-> cache_consistent u hints rcache (rc_get now) c).
+Proof.
+  intros u hints. split; [|split].
+  - intro mode. split; [apply emptym_consistent; exact sc_empty_get|intro now; apply emptym_consistent; exact (rc_empty_get now)].
+  - intro c. apply consistentm_v4.
+  - intros now c. apply consistentm_v4.
+Qed.
+Print Assumptions C07_consistentm_only_v4.
+
+(* ---- the hypotheses are met by a worked universe (RecursiveModes.v, section 7): the depth-3 chain
+   with v6 in it -- the root server a. at 10.0.0.1 and fd00::1 (hints: both), com. served by ns.com. at
+   fd00::2 ONLY (a v6-only nameserver: AAAA glue), example.com. and sub.example.com. served at a v4 and a
+   v6 address each (A and AAAA glue); consistent.  For EVERY mode that can use v6 (prefer-v4, prefer-v6,
+   only-v6: exactly the modes other than only-v4) www.sub.example.com. A from the empty cache has the
+   outcome of the theorem, the cache left is consistent for the mode, and MX asked from it too.
+   Evaluated by vm_compute: prefer-v4 asks 10.0.0.1, fd00::2 (com. has no v4 address), 10.0.0.3,
+   10.0.0.4; prefer-v6 and only-v6 ask fd00::1..4; MX from the cache of the prefer-v6 run is denied by
+   fd00::4 alone. ---- *)
+Example C07_example_modes :
+  (forall mode, mode_usable mode RT_AAAA ->
+     outcomem scache sc_get 53 m3_universe m3_hints mode false c3_q m3_root [m3_com; m3_ex; m3_sub] m3_sub sc_empty
+       (resolve scache sc_get sc_insert_all sort_names_ord (ModeRecursive mode) 53 (zones_insert [] m3_hz)
+                (universe_oracle m3_universe []) 5%nat c3_q (sc_empty, tstate_init))
+     /\ (let c1 := fst (snd (resolve scache sc_get sc_insert_all sort_names_ord (ModeRecursive mode) 53 (zones_insert [] m3_hz)
+                                     (universe_oracle m3_universe []) 5%nat c3_q (sc_empty, tstate_init))) in
+         consistentm m3_universe m3_hints mode (fun _ => False) scache sc_get c1
+         /\ outcomem scache sc_get 53 m3_universe m3_hints mode false c3_q_mx m3_root [m3_com; m3_ex; m3_sub] m3_sub c1
+              (resolve scache sc_get sc_insert_all sort_names_ord (ModeRecursive mode) 53 (zones_insert [] m3_hz)
+                       (universe_oracle m3_universe []) 5%nat c3_q_mx (c1, tstate_init))))
+  /\ (let run mode q c := resolve scache sc_get sc_insert_all sort_names_ord (ModeRecursive mode) 53 (zones_insert [] m3_hz)
+                                  (universe_oracle m3_universe []) 5%nat q (c, tstate_init) in
+      let ans := Ok (NonAuthoritative [c3_rr c3_n_www RT_A 300 (RD_A 3221225985)] None) in
+      let r4 := run PreferV4 c3_q sc_empty in
+      let r6 := run PreferV6 c3_q sc_empty in
+      let o6 := run OnlyV6 c3_q sc_empty in
+      let w6 := run PreferV6 c3_q_mx (fst (snd r6)) in
+      fst r4 = ans /\ map x_addr (ts_log (snd (snd r4))) = [(inl c3_ip0, 53); (inr (m3_v6 2), 53); (inl c3_ip2, 53); (inl c3_ip3, 53)]
+      /\ fst r6 = ans /\ map x_addr (ts_log (snd (snd r6))) = [(inr (m3_v6 1), 53); (inr (m3_v6 2), 53); (inr (m3_v6 3), 53); (inr (m3_v6 4), 53)]
+      /\ fst o6 = ans /\ map x_addr (ts_log (snd (snd o6))) = map x_addr (ts_log (snd (snd r6)))
+      /\ fst w6 = Ok (NonAuthoritative [] (Some (uz_soa m3_sub))) /\ map x_addr (ts_log (snd (snd w6))) = [(inr (m3_v6 4), 53)]
+      /\ consistentb m3_universe = true
+      /\ (forall mode, mode_usable mode RT_AAAA <-> mode <> OnlyV4)).
+Proof. exact (conj modes_example modes_example_eval). Qed.
+Print Assumptions C07_example_modes.
